@@ -86,9 +86,9 @@ P0(name, cpu, mem, created) ==
     [name |-> name, ns |-> "default", node |-> "", owner |-> "rs", cpu |-> cpu, mem |-> mem, created |-> created, labels |-> <<>>,
      sel |-> <<>>, terms |-> <<>>, pref |-> <<>>, tol |-> <<>>, ports |-> <<>>, vols |-> <<>>, aff |-> <<>>, anti |-> <<>>,
      prefAff |-> <<>>, prefAnti |-> <<>>, spread |-> <<>>]
-\* sizes: S small, M medium (two fit type A), H heavy on memory (two never share the 4 GiB type)
-Size(s) == CASE s = "S" -> <<600, 512>> [] s = "M" -> <<1500, 1024>> [] s = "H" -> <<1700, 3000>> [] s = "X" -> <<3100, 2048>>
-Batch(i) == CASE i = 1 -> <<"M", "M">> [] i = 2 -> <<"H", "H">> [] i = 3 -> <<"M", "S">> [] i = 4 -> <<"H", "M">> [] i = 5 -> <<"X", "S">> [] i = 6 -> <<"X", "M">>
+\* sizes: S small, M medium (two fit type A), H heavy on memory (two never share the 4 GiB type), X large, E: two of them + the daemonset fill type A's cpu EXACTLY
+Size(s) == CASE s = "S" -> <<600, 512>> [] s = "M" -> <<1500, 1024>> [] s = "H" -> <<1700, 3000>> [] s = "X" -> <<3100, 2048>> [] s = "E" -> <<1900, 1024>>
+Batch(i) == CASE i = 1 -> <<"M", "M">> [] i = 2 -> <<"H", "H">> [] i = 3 -> <<"M", "S">> [] i = 4 -> <<"H", "M">> [] i = 5 -> <<"X", "S">> [] i = 6 -> <<"X", "M">> [] i = 7 -> <<"E", "E">>
 Later(i) == CASE i = 0 -> <<>> [] i = 1 -> <<"S">> [] i = 2 -> <<"M">> [] i = 3 -> <<"H">>
 PodNames == {"w1", "w2", "w3"}
 PodSeq == <<"w1", "w2", "w3">>
